@@ -39,12 +39,13 @@ type Solver struct {
 	hist      strings.Builder // persistent part of the session since reset
 	oneshot   *Solver         // second process used non-incrementally
 	isOneshot bool
+	seq       int
 }
 
 // quickMs is the time given to the incremental solver before a query is
 // re-run non-incrementally (z3's incremental core does no bit-blasting
 // preprocessing and can be orders of magnitude slower on BV+FP queries).
-const quickMs = 1500
+var quickMs = 4000
 
 func startSolver(kind string, timeoutMs int) (*Solver, error) {
 	var cmd *exec.Cmd
@@ -262,39 +263,78 @@ func (s *Solver) check(extra *Expr, isAssertion bool, vars []*Expr) (string, map
 var slowLog io.Writer
 var slowN int64
 
-// ask sends one query and reads its answer (and model).
+// ask sends one query and reads its answer (and model). Every exchange is
+// terminated by an echoed marker so that an unexpected "(error ...)" line can
+// never be mistaken for the answer of a later command; after any error the
+// session is considered corrupted and the process is marked dead (the path
+// is then re-run on a fresh solver).
 func (s *Solver) ask(query, epilogue string, names []string, vars []*Expr) (string, map[string]*Expr) {
-	s.send(query)
-	res, err := s.readSexp()
-	if err != nil {
-		atomic.AddInt64(&gStats.errors, 1)
-		return "unknown", nil
+	s.seq++
+	marker := fmt.Sprintf("SYNC-%d", s.seq)
+	s.send(query + "(echo \"" + marker + "\")\n")
+	outs, sawErr := s.readUntil(marker)
+	res := "unknown"
+	for _, o := range outs {
+		if o == "sat" || o == "unsat" || o == "unknown" {
+			res = o
+		}
 	}
-	var model map[string]*Expr
-	switch res {
-	case "sat":
-		if len(vars) > 0 {
-			s.send("(get-value (" + strings.Join(names, " ") + "))\n")
-			mv, err := s.readSexp()
-			if err == nil {
-				model = parseModel(mv, vars)
-			}
-		}
-	case "unsat":
-	default:
-		if strings.HasPrefix(res, "(error") {
-			atomic.AddInt64(&gStats.errors, 1)
-			if s.log != nil {
-				fmt.Fprintf(s.log, "; SOLVER ERROR: %s\n", res)
-			}
-			fmt.Fprintf(stderr, "solver error: %s\n", res)
-		}
+	if sawErr != "" {
 		res = "unknown"
 	}
-	if epilogue != "" {
-		s.send(epilogue)
+	var model map[string]*Expr
+	if res == "sat" && len(vars) > 0 && !s.dead {
+		s.seq++
+		marker = fmt.Sprintf("SYNC-%d", s.seq)
+		s.send("(get-value (" + strings.Join(names, " ") + "))\n(echo \"" + marker + "\")\n")
+		outs, e2 := s.readUntil(marker)
+		if e2 != "" {
+			sawErr = e2
+			res = "unknown"
+		} else if len(outs) > 0 {
+			model = parseModel(outs[0], vars)
+		}
+	}
+	if epilogue != "" && !s.dead {
+		s.seq++
+		marker = fmt.Sprintf("SYNC-%d", s.seq)
+		s.send(epilogue + "(echo \"" + marker + "\")\n")
+		if _, e3 := s.readUntil(marker); e3 != "" {
+			sawErr = e3
+		}
+	}
+	if sawErr != "" {
+		atomic.AddInt64(&gStats.errors, 1)
+		if s.log != nil {
+			fmt.Fprintf(s.log, "; SOLVER ERROR: %s\n", sawErr)
+		}
+		if slowLog != nil {
+			fmt.Fprintf(slowLog, "solver error: %s\n", sawErr)
+		}
+		s.dead = true
+		res = "unknown"
+		model = nil
 	}
 	return res, model
+}
+
+// readUntil reads solver output up to the echoed marker.
+func (s *Solver) readUntil(marker string) (outs []string, sawErr string) {
+	for {
+		o, err := s.readSexp()
+		if err != nil {
+			s.dead = true
+			return outs, "solver process ended: " + err.Error()
+		}
+		if o == marker || o == "\""+marker+"\"" {
+			return outs, sawErr
+		}
+		if strings.HasPrefix(o, "(error") {
+			sawErr = o
+			continue
+		}
+		outs = append(outs, o)
+	}
 }
 
 // ---- model parsing
